@@ -199,14 +199,15 @@ var specs = []CheckSpec{
 		ID: "C01", Pkg: "testscript",
 		Harnesses: []HarnessSpec{
 			{Fn: "VerifC01Verdict", Quick: map[string]int{"K": 2}, Thorough: map[string]int{"K": 3}, Witness: []string{"pass", "fail", "skip", "continue-on-error"}},
+			{Fn: "VerifC01Exit", Pkg: "cmd/testscript", Quick: map[string]int{}, Thorough: map[string]int{}, Witness: []string{"some-script-failed", "no-script-failed", "two-scripts"}},
 		},
 		Bounds: map[string]string{
-			"quick":    "scripts of <= 2 lines over a menu of 22 line shapes (probe, ! probe, [c] probe, [!c] probe, [c] ! probe, two condition prefixes of either polarity with optional !, stop, ! stop, skip, unknown command, [c] alone, ! alone, # phase, blank, bad condition, exists / ! exists / exists-missing, cmp / ! cmp on two archive files with symbolic contents, mkdir, chmod with two paths); probe outcomes, the two condition values, file contents and ContinueOnError symbolic; run through the real RunT with a synchronous recording T",
+			"quick":    "scripts of <= 2 lines over a menu of 22 line shapes (probe, ! probe, [c] probe, [!c] probe, [c] ! probe, two condition prefixes of either polarity with optional !, stop, ! stop, skip, unknown command, [c] alone, ! alone, # phase, blank, bad condition, exists / ! exists / exists-missing, cmp / ! cmp on two archive files with symbolic contents, mkdir, chmod with two paths); probe outcomes, the two condition values, file contents and ContinueOnError symbolic; run through the real RunT with a synchronous recording T; the standalone command's own T (cmd/testscript runT) over one or two scripts of <= 2 lines from {probe, skip, stop, unknown command}: failed run reported iff some script failed",
 			"thorough": "<= 3 lines",
 		},
 		Stubs: []string{"vfs model for os/file calls, time.Now/Since (concrete clock), regexp on concrete arguments (native), flag definitions, sync (sequential)", "T: synchronous recording implementation; FailNow/Skip unwind by panic (deferred functions run as with runtime.Goexit)"},
 		Assumptions: append([]string{"the reference evaluator over line selectors (40 lines, in the harness) states the property: first failing line decides, stop = pass, skip = skipped unless a line already failed, [cond] false lines have no effect, ContinueOnError runs every line and still fails"}, commonAssumptions...),
-		Outside:     []string{"exec, background commands (&), kill, wait on real processes, grep/stdout/stderr matching on symbolic text, symlink, unix2dos, cmpenv (C16 covers cmpenv under UpdateScripts), stdin/ttyin", "parallel subtests (C04)", "the standalone command's exit mapping beyond the recording T (see cmd/testscript harness if registered)", "scripts longer than the bound"},
+		Outside:     []string{"exec, background commands (&), kill, wait on real processes, grep/stdout/stderr matching on symbolic text, symlink, unix2dos, cmpenv (C16 covers cmpenv under UpdateScripts), stdin/ttyin", "parallel subtests (C04)", "the standalone command's flag parsing, stdin handling and os.Exit call (the harness mirrors the tail of mainerr: r.Run + r.failed)", "scripts longer than the bound"},
 	},
 	{
 		ID: "C16", Pkg: "testscript",
